@@ -1710,9 +1710,10 @@ func checkOwnReadBack(c *Ctx, rule string) {
 // element order is kept for the write-order rules.
 
 type c09TableCall struct {
-	Site    ssa.CallInstruction
-	Elems   []*ssa.Function // in literal order
-	Ordered bool            // called by a forward range loop: element k runs before element k+1
+	Site     ssa.CallInstruction
+	Elems    []*ssa.Function // in literal order
+	Ordered  bool            // run by a forward loop over the whole table (range, or i := 0; i < len; i++): element k runs before element k+1
+	Reversed bool            // run from the last element down to the first (i := len-1; i >= 0; i--): element k+1 runs before element k
 }
 
 type c09TableInfo struct {
@@ -1853,14 +1854,111 @@ func c09TableCallOf(ci ssa.CallInstruction) *c09TableCall {
 		}
 	}
 	tc := &c09TableCall{Site: ci, Elems: elems}
-	// forward range: index = phi [-1, index+1] and the loop is left at len
-	if bo, ok := ia.Index.(*ssa.BinOp); ok && bo.Op == token.ADD {
-		if one, isOne := constInt(bo.Y); isOne && one == 1 {
-			if ph, ok := bo.X.(*ssa.Phi); ok && len(ph.Edges) == 2 {
+	tableLen := arr.Len()
+	// isLen: v is len(table) or the constant length of the literal
+	isLen := func(v ssa.Value) bool {
+		if n, ok := constInt(v); ok {
+			return n == tableLen
+		}
+		if call, ok := v.(*ssa.Call); ok {
+			if b, isB := call.Common().Value.(*ssa.Builtin); isB && b.Name() == "len" && len(call.Common().Args) == 1 {
+				a := call.Common().Args[0]
+				return (sl != nil && a == ssa.Value(sl)) || a == ssa.Value(al)
+			}
+		}
+		return false
+	}
+	// loopTest: the block of phi ends with a branch on "phi OP bound"; returns OP normalised
+	// to phi on the left, and the bound
+	loopTest := func(ph *ssa.Phi) (token.Token, ssa.Value, bool) {
+		b := ph.Block()
+		if len(b.Instrs) == 0 {
+			return 0, nil, false
+		}
+		ifi, ok := b.Instrs[len(b.Instrs)-1].(*ssa.If)
+		if !ok {
+			return 0, nil, false
+		}
+		bo, ok := ifi.Cond.(*ssa.BinOp)
+		if !ok {
+			return 0, nil, false
+		}
+		// the body (where the table is indexed) must be on the true side
+		if !edgeDominates(edge{b, b.Succs[0]}, ia.Block()) {
+			return 0, nil, false
+		}
+		switch {
+		case bo.X == ssa.Value(ph):
+			return bo.Op, bo.Y, true
+		case bo.Y == ssa.Value(ph):
+			flip := map[token.Token]token.Token{token.LSS: token.GTR, token.GTR: token.LSS, token.LEQ: token.GEQ, token.GEQ: token.LEQ, token.NEQ: token.NEQ}
+			if op, ok := flip[bo.Op]; ok {
+				return op, bo.X, true
+			}
+		}
+		return 0, nil, false
+	}
+	// step: v == ph + delta
+	step := func(v ssa.Value, ph *ssa.Phi) (int64, bool) {
+		bo, ok := v.(*ssa.BinOp)
+		if !ok || bo.X != ssa.Value(ph) {
+			return 0, false
+		}
+		d, isC := constInt(bo.Y)
+		switch {
+		case !isC:
+			return 0, false
+		case bo.Op == token.ADD:
+			return d, true
+		case bo.Op == token.SUB:
+			return -d, true
+		}
+		return 0, false
+	}
+	switch idx := ia.Index.(type) {
+	case *ssa.BinOp:
+		// forward range: index = phi [-1, index+1] and the loop is left at len
+		if one, isOne := constInt(idx.Y); idx.Op == token.ADD && isOne && one == 1 {
+			if ph, ok := idx.X.(*ssa.Phi); ok && len(ph.Edges) == 2 {
 				for i, e := range ph.Edges {
-					if m, isC := constInt(e); isC && m == -1 && ph.Edges[1-i] == ssa.Value(bo) {
+					if m, isC := constInt(e); isC && m == -1 && ph.Edges[1-i] == ssa.Value(idx) {
 						tc.Ordered = true
 					}
+				}
+			}
+		}
+	case *ssa.Phi:
+		// index loop: for i := 0; i < len(table); i++ { table[i]() }  (forward, every element
+		// once) or for i := len(table)-1; i >= 0; i-- (reversed). Any other start, stride or
+		// bound leaves the table unordered.
+		if len(idx.Edges) != 2 {
+			break
+		}
+		for i := range idx.Edges {
+			init, next := idx.Edges[i], idx.Edges[1-i]
+			d, ok := step(next, idx)
+			if !ok {
+				continue
+			}
+			op, bound, ok := loopTest(idx)
+			if !ok {
+				continue
+			}
+			if n, isC := constInt(init); isC && n == 0 && d == 1 && (op == token.LSS || op == token.NEQ) && isLen(bound) {
+				tc.Ordered = true
+			}
+			// len(table)-1 down to 0
+			startsAtLast := false
+			if n, isC := constInt(init); isC && n == tableLen-1 {
+				startsAtLast = true
+			} else if bo, ok := init.(*ssa.BinOp); ok && bo.Op == token.SUB && isLen(bo.X) {
+				if one, isC := constInt(bo.Y); isC && one == 1 {
+					startsAtLast = true
+				}
+			}
+			if startsAtLast && d == -1 {
+				if z, isC := constInt(bound); isC && ((op == token.GEQ && z == 0) || (op == token.GTR && z == -1)) {
+					tc.Reversed = true
 				}
 			}
 		}
